@@ -1582,10 +1582,17 @@ impl<'p, 'w, W: Write> DesignatorWriter<'p, 'w, W> {
 
     fn finish_preceding(&mut self) -> Result<(), Error> {
         if self.written_non_zero_unit {
+            let between = self.printer.spacing.between_units();
             if self.printer.comma_after_designator {
                 self.wtr.write_str(",")?;
+                // The friendly format requires whitespace after a comma, so
+                // emit it even when spacing is otherwise disabled. Otherwise
+                // the parser would reject what we print here.
+                if between.is_empty() {
+                    self.wtr.write_str(" ")?;
+                }
             }
-            self.wtr.write_str(self.printer.spacing.between_units())?;
+            self.wtr.write_str(between)?;
         }
         Ok(())
     }
